@@ -250,6 +250,12 @@ def trainer_slices(kind, y, saliency, opts=None):
                 alone[idx] = _fit_dist(kind, y[idx].copy(order='K'), _take(saliency, idx), trainers, opts)
             except (AssertionError, np.linalg.LinAlgError, ValueError, FloatingPointError) as e:
                 return Skip(f'slice alone raises {type(e).__name__} ({kind})')
+    if kind.startswith('gauss-'):
+        for idx, m in alone.items():
+            cov = np.asarray(m.covariance, dtype=float)
+            smallest = float(np.min(np.linalg.eigvalsh(cov))) if kind == 'gauss-full' else float(np.min(cov))
+            if smallest <= 1e-20 * float(np.max(np.abs(y[idx])) ** 2):
+                return Skip('a Gaussian fitted on identical frames (covariance = rounding noise)')
     try:
         with (tape.replay(1) if tape else contextlib.nullcontext()):
             stacked = _fit_dist(kind, y.copy(order='K'), saliency, trainers, opts)
